@@ -8,6 +8,8 @@ SRC = os.environ.get('SEED_SRC', '/tmp/seedout')
 OUT = '/tmp/seedout/matrix'
 EXTRA = {'C17/b': ['C01'], 'C08/b': ['C20'], 'C10/a': ['C06'], 'C10/b': ['C09'], 'C04/b': ['C07'], 'C07/a': ['C04'], 'C07/b': ['C04']}
 os.makedirs(OUT, exist_ok=True)
+# the checks run here see a deliberately broken /repo: keep their evidence out of /verif/evidence
+os.environ['VERIF_EVIDENCE_DIR'] = OUT + '/evidence'
 
 def sh(cmd, cwd='/verif', timeout=1800):
     p = subprocess.run(cmd, shell=True, cwd=cwd, stdout=subprocess.PIPE, stderr=subprocess.STDOUT, text=True, timeout=timeout)
